@@ -506,16 +506,13 @@ func c19r4(c *Check) {
 			c.Judge(okA, name+" Ordered(validated key, validated ts)", c.At(call), "arguments are ValidatePacket's key and timestamp", "Ordered is not given the canonical key and timestamp returned by ValidatePacket (e.g. the raw first field keeps a leading dot, so `.foo` and `foo` are tracked as different names)")
 			// err reported with the key
 		})
-		allInstrs(fn, func(in ssa.Instruction) {
-			if isCallNamed(in, nBadAdd) {
-				cc := callCommon(in)
-				if _, isOrd := callOf(argsOf(cc)[2], nOrdered); isOrd {
-					ex, _ := argsOf(cc)[0].(*ssa.Extract)
-					_, okKey := callOf(argsOf(cc)[0], nValidatePacket)
-					c.Judge(okKey && ex != nil && ex.Index == 0, name+" out-of-order reported under its name", c.At(in), "bad.Add(key, line, err)", "the out-of-order point is not reported under its validated name")
-				}
+		for _, ba := range badAddSites(c.P, fn) {
+			if _, isOrd := callOf(ba.args[2], nOrdered); isOrd {
+				ex, _ := ba.args[0].(*ssa.Extract)
+				_, okKey := callOf(ba.args[0], nValidatePacket)
+				c.Judge(okKey && ex != nil && ex.Index == 0, name+" out-of-order reported under its name", c.At(ba.at), "bad.Add(key, line, err)", "the out-of-order point is not reported under its validated name")
 			}
-		})
+		}
 	}
 }
 
